@@ -21,7 +21,7 @@ RULE = ("(CNF, switches/explicit arguments, randomness): CNFs from tiny (0-5 var
 ASSUMPTIONS = ["the witness attached under CNFGEN_VERIF=1 is what Shuffle used (validated by reconstructing the output from it)",
                "within a clause the order of literals is not part of the statement (clauses compared as multisets of literals)"]
 REQUIRED = ["witness_validated", "reconstructions", "renaming_searches", "model_counts_compared", "explicit_valid",
-            "explicit_invalid_rejected", "fixed_switches", "cnfshuffle_runs", "T_shuffle_runs", "adversary_engaged"]
+            "explicit_invalid_rejected", "fixed_switches", "cnfshuffle_runs", "T_shuffle_runs", "adversary_engaged", "positional_consistency_checks"]
 CASE_TIMEOUT = {"quick": 300, "thorough": 1800}
 
 
@@ -46,9 +46,9 @@ def random_cnf(r, size):
         N = r.randint(3, 18)
         M = r.randint(1, 40)
     else:
-        N = r.randint(50, 300)
-        M = r.randint(100, 1000)
-    used = r.randint(0, N)
+        N = r.randint(130, 300)
+        M = r.randint(200, 1000)
+    used = r.randint(0, N) if size != "large" else r.randint(129, N)
     cls = []
     for _ in range(M):
         w = r.choice([0, 1, 2, 3, 3, 4]) if used else 0
@@ -164,9 +164,27 @@ def judge_shuffle(ctx, label, N, clauses, G, pf, vp, cp, mech="shuffle"):
         elif canon(img) != canon(out):
             ctx.violation(mech + ":explicit-renaming-not-applied", "%s: the clause multiset is not the image under the given renaming" % label)
             return False
-    elif cp_known is not None and N <= 5:
-        # positions are known: each output clause must be a renaming image of its source, consistently
-        pass
+    if cp_known is not None:
+        # hook-independent, any size: positions are known, so every occurrence of a variable must be sent to one
+        # variable with one polarity (Shuffle keeps the order of literals inside a clause)
+        ctx.count("positional_consistency_checks")
+        img, back = {}, {}
+        for i in range(M):
+            src, dst = clauses[i], out[cp_known[i]]
+            if len(src) != len(dst):
+                ctx.violation(mech + ":clause-not-at-its-position", "%s: clause %d has width %d, position %d holds width %d"
+                              % (label, i, len(src), cp_known[i], len(dst)))
+                return False
+            for a, b in zip(src, dst):
+                want = (abs(b), (a > 0) == (b > 0))
+                if img.setdefault(abs(a), want) != want:
+                    ctx.violation(mech + ":variable-renamed-inconsistently", "%s: variable %d is sent to %r and to %r"
+                                  % (label, abs(a), img[abs(a)], want))
+                    return False
+                if back.setdefault(abs(b), abs(a)) != abs(a):
+                    ctx.violation(mech + ":renaming-not-injective", "%s: variables %d and %d are both sent to %d"
+                                  % (label, back[abs(b)], abs(a), abs(b)))
+                    return False
     if N <= 5 and M <= 8:
         ctx.count("renaming_searches")
         if not search_renaming(N, clauses, out, allow_flips=pf != "fixed", allow_perm=vp != "fixed"):
@@ -195,7 +213,7 @@ def case_library(ctx, size, rseed, count):
         M = len(cls)
         F = make_cnf(N, cls)
         for combo in itertools.product(("fixed", "shuffle", "explicit"), repeat=3):
-            if size == "large" and r.random() < 0.7:
+            if size == "large" and r.random() < 0.5:
                 continue
             container = r.choice(["list", "tuple"])
             ef, ev, ec = explicit_args(r, N, M, container)
@@ -254,6 +272,12 @@ def invalid_args(N, M):
     if N >= 2:
         out.append(("variables", [1] + idp[:-1], "repeated image"))
         out.append(("variables", tuple([idp[0]] * N), "constant map"))
+    if N >= 3:
+        out.append(("variables", [1, 2.5] + idp[2:], "non-integer image"))
+        out.append(("variables", idp[:-1] + [None], "None image"))
+        out.append(("flips", [1.5] + [1] * (N - 1), "non-integer flip"))
+    if M >= 3:
+        out.append(("clauses", [0, 1.5] + idc[2:], "non-integer position"))
     out.append(("clauses", idc + [M], "too long"))
     if M:
         out.append(("clauses", list(range(1, M + 1)), "1-based"))
@@ -278,7 +302,7 @@ def case_invalid(ctx, rseed, count):
             label = "Shuffle(CNF(%d vars, %d clauses), %s=%r)" % (N, M, which, val)
             if st == "ok":
                 ctx.violation("shuffle:accepts-invalid-%s(%s)" % (which, why.split(",")[0]), "%s was accepted" % label)
-            elif not isinstance(G, ValueError):
+            elif not isinstance(G, ValueError) and not (isinstance(G, TypeError) and ("non-integer" in why or "None" in why)):
                 ctx.violation("shuffle:invalid-%s-raises-%s" % (which, type(G).__name__), "%s raised %r" % (label, G))
             else:
                 ctx.count("explicit_invalid_rejected")
@@ -400,7 +424,7 @@ def workload(tier, seed):
         yield "library", {"size": "tiny", "rseed": seed * 1000 + i, "count": 10}
     for i in range(8 if q else 400):
         yield "library", {"size": "small", "rseed": seed * 1000 + i, "count": 5}
-    for i in range(4 if q else 100):
+    for i in range(12 if q else 100):
         yield "library", {"size": "large", "rseed": seed * 1000 + i, "count": 1}
     for i in range(8 if q else 48):
         yield "invalid", {"rseed": seed * 1000 + i, "count": 12}
